@@ -4,7 +4,8 @@
 // identity, RowsAffected and a full dump of both tables before/after.
 // Oracle: condition-free chain (AllowGlobalUpdate off) => zero statement events,
 // errors.Is(err, ErrMissingWhereClause), dump unchanged; chain with one effective
-// condition => never ErrMissingWhereClause.
+// condition (a condition call, an inline condition of Delete, or a model value /
+// deleted value with a wholly or partly set primary key) => never ErrMissingWhereClause.
 package c09
 
 import (
@@ -58,6 +59,45 @@ type Soft2 struct {
 
 func (Soft2) TableName() string { return "soft2" }
 
+// KPlain and KSoft have a composite primary key. A value whose key is only partly set ((1, ""), (0, "x")) is
+// still a model value WITH a primary key: the set part is the condition it supplies.
+type KPlain struct {
+	ID    int64  `gorm:"primaryKey;autoIncrement:false"`
+	Loc   string `gorm:"primaryKey"`
+	A     int64
+	S     string
+	Notes []CNote `gorm:"polymorphic:Owner"`
+}
+
+type KSoft struct {
+	OrderID   int64 `gorm:"primaryKey;autoIncrement:false"`
+	LineNo    int   `gorm:"primaryKey;autoIncrement:false"`
+	A         int64
+	S         string
+	DeletedAt gorm.DeletedAt
+	Notes     []CNote `gorm:"polymorphic:Owner;foreignKey:OrderID"`
+}
+
+// keyPat is one way of giving a model value a primary key (for a composite key: which parts are set).
+type keyPat struct {
+	name  string             // the literal field list, e.g. `ID:1,Loc:""`
+	class string             // single | full | last part zero | first part zero
+	ptr   func() interface{} // &M{key}
+	val   func() interface{} // M{key}
+	sl1   func() interface{} // &[]M{{key}}
+	sl2   func() interface{} // &[]M{{}, {key}}
+	upd   func() interface{} // &M{key, S:"x"}
+}
+
+func kp[T any](name, class string, v, withS T) keyPat {
+	return keyPat{name, class,
+		func() interface{} { x := v; return &x },
+		func() interface{} { return v },
+		func() interface{} { return &[]T{v} },
+		func() interface{} { var z T; return &[]T{z, v} },
+		func() interface{} { x := withS; return &x }}
+}
+
 type model struct {
 	name    string
 	table   string
@@ -65,25 +105,45 @@ type model struct {
 	zeroVal func() interface{}
 	withS   func(s string) interface{}
 	withA   func(a int64) interface{}
-	withID  func(id int64) interface{}
 	emptySl func() interface{}
 	zeroSl  func() interface{} // non-empty slice whose elements have no primary key
+	keys    []keyPat
+}
+
+func mk[T any](name, table string, withS func(string) T, withA func(int64) T, keys ...keyPat) model {
+	return model{name, table,
+		func() interface{} { return new(T) },
+		func() interface{} { var z T; return z },
+		func(s string) interface{} { return withS(s) },
+		func(a int64) interface{} { return withA(a) },
+		func() interface{} { return &[]T{} },
+		func() interface{} { sl := make([]T, 2); return &sl },
+		keys}
 }
 
 var models = []model{
-	{"plain", "plains",
-		func() interface{} { return &Plain{} }, func() interface{} { return Plain{} },
-		func(s string) interface{} { return Plain{S: s} }, func(a int64) interface{} { return Plain{A: a} },
-		func(id int64) interface{} { return &Plain{ID: id} }, func() interface{} { return &[]Plain{} }, func() interface{} { return &[]Plain{{}, {}} }},
-	{"soft", "softs",
-		func() interface{} { return &Soft{} }, func() interface{} { return Soft{} },
-		func(s string) interface{} { return Soft{S: s} }, func(a int64) interface{} { return Soft{A: a} },
-		func(id int64) interface{} { return &Soft{ID: id} }, func() interface{} { return &[]Soft{} }, func() interface{} { return &[]Soft{{}, {}} }},
-	{"soft2", "soft2",
-		func() interface{} { return &Soft2{} }, func() interface{} { return Soft2{} },
-		func(s string) interface{} { return Soft2{S: s} }, func(a int64) interface{} { return Soft2{A: a} },
-		func(id int64) interface{} { return &Soft2{ID: id} }, func() interface{} { return &[]Soft2{} }, func() interface{} { return &[]Soft2{{}, {}} }},
+	mk("plain", "plains", func(s string) Plain { return Plain{S: s} }, func(a int64) Plain { return Plain{A: a} },
+		kp("ID:1", "single", Plain{ID: 1}, Plain{ID: 1, S: "x"})),
+	mk("soft", "softs", func(s string) Soft { return Soft{S: s} }, func(a int64) Soft { return Soft{A: a} },
+		kp("ID:1", "single", Soft{ID: 1}, Soft{ID: 1, S: "x"})),
+	mk("soft2", "soft2", func(s string) Soft2 { return Soft2{S: s} }, func(a int64) Soft2 { return Soft2{A: a} },
+		kp("ID:1", "single", Soft2{ID: 1}, Soft2{ID: 1, S: "x"})),
+	mk("kplain", "k_plains", func(s string) KPlain { return KPlain{S: s} }, func(a int64) KPlain { return KPlain{A: a} },
+		kp(`ID:1,Loc:""`, "last part zero", KPlain{ID: 1}, KPlain{ID: 1, S: "x"}),
+		kp(`ID:0,Loc:"x"`, "first part zero", KPlain{Loc: "x"}, KPlain{Loc: "x", S: "x"}),
+		kp(`ID:1,Loc:"x"`, "full", KPlain{ID: 1, Loc: "x"}, KPlain{ID: 1, Loc: "x", S: "x"})),
+	mk("ksoft", "k_softs", func(s string) KSoft { return KSoft{S: s} }, func(a int64) KSoft { return KSoft{A: a} },
+		kp(`OrderID:1,LineNo:0`, "last part zero", KSoft{OrderID: 1}, KSoft{OrderID: 1, S: "x"}),
+		kp(`OrderID:0,LineNo:3`, "first part zero", KSoft{LineNo: 3}, KSoft{LineNo: 3, S: "x"}),
+		kp(`OrderID:1,LineNo:3`, "full", KSoft{OrderID: 1, LineNo: 3}, KSoft{OrderID: 1, LineNo: 3, S: "x"})),
 }
+
+// (model, mode) pairs of the enumeration. mode = how the model is supplied to update finishers: 0 Model(&M{}) |
+// 1 Table(t) | 2 Model(&[]M{{},{}}); for delete finishers mode >= 1 runs a decoy first (see run).
+// The composite-key models differ from the others only in how a key is read off a value: two modes each.
+const nSingle = 9 // the first nSingle pairs are those of the single-key models
+
+var pairs = [][2]int{{0, 0}, {0, 1}, {0, 2}, {1, 0}, {1, 1}, {1, 2}, {2, 0}, {2, 1}, {2, 2}, {3, 0}, {3, 2}, {4, 0}, {4, 2}}
 
 type step struct {
 	name string
@@ -146,56 +206,142 @@ var steps = []step{
 	}},
 }
 
-// effective conditions (positive side)
-var conds = []step{
-	{`Where("a = ?", 1)`, func(db *gorm.DB, m model) *gorm.DB { return db.Where("a = ?", 1) }},
-	{`Where(map a:1)`, func(db *gorm.DB, m model) *gorm.DB { return db.Where(map[string]interface{}{"a": 1}) }},
-	{`Where(M{A:1})`, func(db *gorm.DB, m model) *gorm.DB { return db.Where(m.withA(1)) }},
-	{`Where("id IN ?", []int64{1,2})`, func(db *gorm.DB, m model) *gorm.DB { return db.Where("id IN ?", []int64{1, 2}) }},
-	{`Where([]int64{1})`, func(db *gorm.DB, m model) *gorm.DB { return db.Where([]int64{1}) }},
-	{`Where("a", 1)`, func(db *gorm.DB, m model) *gorm.DB { return db.Where("a", 1) }},
-	{`Where(clause.Eq)`, func(db *gorm.DB, m model) *gorm.DB { return db.Where(clause.Eq{Column: "a", Value: 1}) }},
-	{`Where("a = @v", named)`, func(db *gorm.DB, m model) *gorm.DB { return db.Where("a = @v", map[string]interface{}{"v": 1}) }},
-	{`Not("a = ?", 1)`, func(db *gorm.DB, m model) *gorm.DB { return db.Not("a = ?", 1) }},
-	{`Not(map a:1)`, func(db *gorm.DB, m model) *gorm.DB { return db.Not(map[string]interface{}{"a": 1}) }},
-	{`Or("a = ?", 1)`, func(db *gorm.DB, m model) *gorm.DB { return db.Or("a = ?", 1) }},
-	{`Where("1 = 1")`, func(db *gorm.DB, m model) *gorm.DB { return db.Where("1 = 1") }},
-	{`Scopes(Where a=1)`, func(db *gorm.DB, m model) *gorm.DB {
-		return db.Scopes(func(d *gorm.DB) *gorm.DB { return d.Where("a = ?", 1) })
-	}},
-	{`Where(db.Where(a=1).Or(a=2))`, nil}, // built from the root handle, see apply
-	{`Model(&M{ID:1})`, func(db *gorm.DB, m model) *gorm.DB { return db.Model(m.withID(1)) }},
+// effective conditions (positive side). kind says where the condition enters the operation:
+const (
+	inChain  = iota // a chain call inserted at a random position
+	atEnd           // a chain call placed after the chain (a Model() with key: a later Model(&M{}) step would replace it)
+	delValue        // delete finishers: the value handed to Delete carries the key (same shape as the finisher's own value)
+	delArg          // delete finishers: an inline condition handed to Delete (replaces the finisher's empty ones)
+	updSelf         // struct-valued update finishers: Updates(&M{key, S:"x"}) without any Model(): the value is its own model
+)
+
+// "{key}" in a name is replaced by the literal key pattern picked from the model's patterns
+type cond struct {
+	name   string
+	kind   int
+	f      func(db *gorm.DB, m model, k keyPat) *gorm.DB
+	inline func(m model) []interface{}
 }
 
+var conds = []cond{
+	{`Where("a = ?", 1)`, inChain, func(db *gorm.DB, m model, k keyPat) *gorm.DB { return db.Where("a = ?", 1) }, nil},
+	{`Where(map a:1)`, inChain, func(db *gorm.DB, m model, k keyPat) *gorm.DB { return db.Where(map[string]interface{}{"a": 1}) }, nil},
+	{`Where(M{A:1})`, inChain, func(db *gorm.DB, m model, k keyPat) *gorm.DB { return db.Where(m.withA(1)) }, nil},
+	{`Where("a IN ?", []int64{1,2})`, inChain, func(db *gorm.DB, m model, k keyPat) *gorm.DB { return db.Where("a IN ?", []int64{1, 2}) }, nil},
+	{`Where([]int64{1})`, inChain, func(db *gorm.DB, m model, k keyPat) *gorm.DB { return db.Where([]int64{1}) }, nil},
+	{`Where("a", 1)`, inChain, func(db *gorm.DB, m model, k keyPat) *gorm.DB { return db.Where("a", 1) }, nil},
+	{`Where(clause.Eq)`, inChain, func(db *gorm.DB, m model, k keyPat) *gorm.DB { return db.Where(clause.Eq{Column: "a", Value: 1}) }, nil},
+	{`Where("a = @v", named)`, inChain, func(db *gorm.DB, m model, k keyPat) *gorm.DB {
+		return db.Where("a = @v", map[string]interface{}{"v": 1})
+	}, nil},
+	{`Not("a = ?", 1)`, inChain, func(db *gorm.DB, m model, k keyPat) *gorm.DB { return db.Not("a = ?", 1) }, nil},
+	{`Not(map a:1)`, inChain, func(db *gorm.DB, m model, k keyPat) *gorm.DB { return db.Not(map[string]interface{}{"a": 1}) }, nil},
+	{`Or("a = ?", 1)`, inChain, func(db *gorm.DB, m model, k keyPat) *gorm.DB { return db.Or("a = ?", 1) }, nil},
+	{`Where("1 = 1")`, inChain, func(db *gorm.DB, m model, k keyPat) *gorm.DB { return db.Where("1 = 1") }, nil},
+	{`Scopes(Where a=1)`, inChain, func(db *gorm.DB, m model, k keyPat) *gorm.DB {
+		return db.Scopes(func(d *gorm.DB) *gorm.DB { return d.Where("a = ?", 1) })
+	}, nil},
+	{`Where(db.Where(a=1).Or(a=2))`, inChain, nil, nil}, // built from the root handle, see runOp
+	// a struct condition that names (part of) the key
+	{`Where(M{key})`, inChain, func(db *gorm.DB, m model, k keyPat) *gorm.DB { return db.Where(k.val()) }, nil},
+	{`Not(&M{key})`, inChain, func(db *gorm.DB, m model, k keyPat) *gorm.DB { return db.Not(k.ptr()) }, nil},
+	{`Or(M{key})`, inChain, func(db *gorm.DB, m model, k keyPat) *gorm.DB { return db.Or(k.val()) }, nil},
+	// the model value carries a primary key (for Delete the value handed to Delete may then be empty)
+	{`Model(&M{key})`, atEnd, func(db *gorm.DB, m model, k keyPat) *gorm.DB { return db.Model(k.ptr()) }, nil},
+	{`Model(&[]M{{key}})`, atEnd, func(db *gorm.DB, m model, k keyPat) *gorm.DB { return db.Model(k.sl1()) }, nil},
+	{`Model(&[]M{{},{key}})`, atEnd, func(db *gorm.DB, m model, k keyPat) *gorm.DB { return db.Model(k.sl2()) }, nil},
+	{`the value handed to Delete carries {key}`, delValue, nil, nil},
+	{`the value handed to Updates is its own model and carries {key}`, updSelf, nil, nil},
+	// inline conditions of Delete
+	{`inline "a = ?", 1`, delArg, nil, func(m model) []interface{} { return []interface{}{"a = ?", 1} }},
+	{`inline map a:1`, delArg, nil, func(m model) []interface{} { return []interface{}{map[string]interface{}{"a": 1}} }},
+	{`inline M{A:1}`, delArg, nil, func(m model) []interface{} { return []interface{}{m.withA(1)} }},
+	{`inline []int64{1,2}`, delArg, nil, func(m model) []interface{} { return []interface{}{[]int64{1, 2}} }},
+	{`inline 1`, delArg, nil, func(m model) []interface{} { return []interface{}{1} }},
+	{`inline "", "a = ?", 1`, delArg, nil, func(m model) []interface{} { return []interface{}{"", "a = ?", 1} }},
+}
+
+// finisher: an update finisher has f (and self for the struct-valued ones); a delete finisher is described by
+// pre (relation selected along), shape of the value and its (empty) inline conditions, so that the positive
+// direction can hand a keyed value of the same shape, or an effective inline condition, to the same call.
 type finisher struct {
 	name     string
 	needsMdl bool // needs Model() (or Table) set by the harness
 	f        func(db *gorm.DB, m model) *gorm.DB
+	self     func(db *gorm.DB, v interface{}) *gorm.DB
+	pre      string
+	shape    int // 0 &M{} | 1 &[]M{} | 2 &[]M{{},{}}
+	inline   []interface{}
+	inlineS  string // the literal inline conditions
+	inlineF  func(m model) []interface{} // inline conditions that depend on the model
+}
+
+func upd(name string, f func(db *gorm.DB, m model) *gorm.DB) finisher {
+	return finisher{name: name, needsMdl: true, f: f}
+}
+
+func del(name, pre string, shape int, inlineS string, inline ...interface{}) finisher {
+	return finisher{name: name, pre: pre, shape: shape, inline: inline, inlineS: inlineS}
 }
 
 var finishers = []finisher{
-	{`Update("s","x")`, true, func(db *gorm.DB, m model) *gorm.DB { return db.Update("s", "x") }},
-	{`Updates(map{s:x})`, true, func(db *gorm.DB, m model) *gorm.DB { return db.Updates(map[string]interface{}{"s": "x"}) }},
-	{`Updates(M{S:x})`, true, func(db *gorm.DB, m model) *gorm.DB { return db.Updates(m.withS("x")) }},
-	{`UpdateColumn("s","x")`, true, func(db *gorm.DB, m model) *gorm.DB { return db.UpdateColumn("s", "x") }},
-	{`UpdateColumns(map{s:x})`, true, func(db *gorm.DB, m model) *gorm.DB { return db.UpdateColumns(map[string]interface{}{"s": "x"}) }},
-	{`UpdateColumns(M{S:x})`, true, func(db *gorm.DB, m model) *gorm.DB { return db.UpdateColumns(m.withS("x")) }},
-	{`Update("s", gorm.Expr)`, true, func(db *gorm.DB, m model) *gorm.DB { return db.Update("s", gorm.Expr("s || ?", "x")) }},
-	{`Delete(&M{})`, false, func(db *gorm.DB, m model) *gorm.DB { return db.Delete(m.zeroPtr()) }},
-	{`Delete(&M{}, "")`, false, func(db *gorm.DB, m model) *gorm.DB { return db.Delete(m.zeroPtr(), "") }},
-	{`Delete(&M{}, map{})`, false, func(db *gorm.DB, m model) *gorm.DB { return db.Delete(m.zeroPtr(), map[string]interface{}{}) }},
-	{`Delete(&M{}, []int64{})`, false, func(db *gorm.DB, m model) *gorm.DB { return db.Delete(m.zeroPtr(), []int64{}) }},
-	{`Delete(&[]M{})`, false, func(db *gorm.DB, m model) *gorm.DB { return db.Delete(m.emptySl()) }},
-	{`Delete(&[]M{{},{}})`, false, func(db *gorm.DB, m model) *gorm.DB { return db.Delete(m.zeroSl()) }},
+	upd(`Update("s","x")`, func(db *gorm.DB, m model) *gorm.DB { return db.Update("s", "x") }),
+	upd(`Updates(map{s:x})`, func(db *gorm.DB, m model) *gorm.DB { return db.Updates(map[string]interface{}{"s": "x"}) }),
+	{name: `Updates(M{S:x})`, needsMdl: true, f: func(db *gorm.DB, m model) *gorm.DB { return db.Updates(m.withS("x")) },
+		self: func(db *gorm.DB, v interface{}) *gorm.DB { return db.Updates(v) }},
+	upd(`UpdateColumn("s","x")`, func(db *gorm.DB, m model) *gorm.DB { return db.UpdateColumn("s", "x") }),
+	upd(`UpdateColumns(map{s:x})`, func(db *gorm.DB, m model) *gorm.DB { return db.UpdateColumns(map[string]interface{}{"s": "x"}) }),
+	{name: `UpdateColumns(M{S:x})`, needsMdl: true, f: func(db *gorm.DB, m model) *gorm.DB { return db.UpdateColumns(m.withS("x")) },
+		self: func(db *gorm.DB, v interface{}) *gorm.DB { return db.UpdateColumns(v) }},
+	upd(`Update("s", gorm.Expr)`, func(db *gorm.DB, m model) *gorm.DB { return db.Update("s", gorm.Expr("s || ?", "x")) }),
+	del(`Delete(&M{})`, "", 0, ""),
+	del(`Delete(&M{}, "")`, "", 0, `""`, ""),
+	del(`Delete(&M{}, map{})`, "", 0, `map{}`, map[string]interface{}{}),
+	del(`Delete(&M{}, []int64{})`, "", 0, `[]int64{}`, []int64{}),
+	{name: `Delete(&M{}, M{})`, shape: 0, inlineS: `M{}`, inlineF: func(m model) []interface{} { return []interface{}{m.zeroVal()} }},
+	del(`Delete(&[]M{})`, "", 1, ""),
+	del(`Delete(&[]M{{},{}})`, "", 2, ""),
 	// a delete that takes a relation along: without a key there is nothing to take along either
-	{`Select("Notes").Delete(&M{})`, false, func(db *gorm.DB, m model) *gorm.DB { return db.Select("Notes").Delete(m.zeroPtr()) }},
-	{`Select(clause.Associations).Delete(&M{})`, false, func(db *gorm.DB, m model) *gorm.DB {
-		return db.Select(clause.Associations).Delete(m.zeroPtr())
-	}},
-	{`Select("Notes").Delete(&[]M{{},{}})`, false, func(db *gorm.DB, m model) *gorm.DB { return db.Select("Notes").Delete(m.zeroSl()) }},
+	del(`Select("Notes").Delete(&M{})`, "Notes", 0, ""),
+	del(`Select(clause.Associations).Delete(&M{})`, clause.Associations, 0, ""),
+	del(`Select("Notes").Delete(&[]M{{},{}})`, "Notes", 2, ""),
 }
 
-const nModes = 3 // how the model is supplied to update finishers: Model(&M{}) | Table(t) | Model(&[]M{{},{}})
+// doDelete executes a delete finisher. k != nil hands a keyed value of the finisher's shape to Delete;
+// inline != nil replaces the finisher's own (empty) inline conditions. Returns the literal call as well.
+func doDelete(db *gorm.DB, m model, fin finisher, k *keyPat, inline []interface{}, inlineS string) (*gorm.DB, string) {
+	if inline == nil {
+		inline, inlineS = fin.inline, fin.inlineS
+		if fin.inlineF != nil {
+			inline = fin.inlineF(m)
+		}
+	}
+	var v interface{}
+	var vn string
+	switch {
+	case k == nil && fin.shape == 0:
+		v, vn = m.zeroPtr(), "&M{}"
+	case k == nil && fin.shape == 1:
+		v, vn = m.emptySl(), "&[]M{}"
+	case k == nil:
+		v, vn = m.zeroSl(), "&[]M{{},{}}"
+	case fin.shape == 0:
+		v, vn = k.ptr(), "&M{"+k.name+"}"
+	case fin.shape == 1:
+		v, vn = k.sl1(), "&[]M{{"+k.name+"}}"
+	default:
+		v, vn = k.sl2(), "&[]M{{},{"+k.name+"}}"
+	}
+	name := ""
+	if fin.pre != "" {
+		db = db.Select(fin.pre)
+		name = fmt.Sprintf("Select(%q).", fin.pre)
+	}
+	if inlineS != "" {
+		inlineS = ", " + inlineS
+	}
+	return db.Delete(v, inline...), name + "Delete(" + vn + inlineS + ")"
+}
 
 func maxLen(tier string) int {
 	if tier == "thorough" {
@@ -237,12 +383,17 @@ type env struct {
 
 var E *env
 
+var tables = []string{"plains", "softs", "soft2", "k_plains", "k_softs", "c_notes"}
+
 const seedSQL = `
-DELETE FROM plains; DELETE FROM softs; DELETE FROM soft2; DELETE FROM c_notes;
-INSERT INTO c_notes(id,owner_id,owner_type,v) VALUES (1,1,'plains','n1'),(2,2,'plains','n2'),(3,1,'softs','n3'),(4,2,'softs','n4'),(5,1,'soft2','n5'),(6,2,'soft2','n6');
+DELETE FROM plains; DELETE FROM softs; DELETE FROM soft2; DELETE FROM k_plains; DELETE FROM k_softs; DELETE FROM c_notes;
+INSERT INTO c_notes(id,owner_id,owner_type,v) VALUES (1,1,'plains','n1'),(2,2,'plains','n2'),(3,1,'softs','n3'),(4,2,'softs','n4'),(5,1,'soft2','n5'),(6,2,'soft2','n6'),
+  (7,1,'k_plains','n7'),(8,2,'k_plains','n8'),(9,1,'k_softs','n9'),(10,2,'k_softs','n10');
 INSERT INTO soft2(id,a,s,deleted_at,archived_at) VALUES (1,1,'t1',NULL,NULL),(2,2,'t2',NULL,NULL),(3,1,'t3','2020-01-01 00:00:00',NULL),(4,2,'t4',NULL,'2020-01-01 00:00:00');
 INSERT INTO plains(id,a,s) VALUES (1,1,'p1'),(2,1,'p2'),(3,2,'p3'),(4,3,'p4');
 INSERT INTO softs(id,a,s,deleted_at) VALUES (1,1,'s1',NULL),(2,2,'s2',NULL),(3,1,'s3','2020-01-01 00:00:00'),(4,2,'s4','2020-01-01 00:00:00');
+INSERT INTO k_plains(id,loc,a,s) VALUES (1,'',1,'k1'),(1,'x',1,'k2'),(0,'x',2,'k3'),(2,'',2,'k4'),(2,'y',3,'k5');
+INSERT INTO k_softs(order_id,line_no,a,s,deleted_at) VALUES (1,0,1,'l1',NULL),(1,3,1,'l2',NULL),(0,3,2,'l3',NULL),(2,0,2,'l4',NULL),(2,1,3,'l5','2020-01-01 00:00:00');
 `
 
 func open(c *core.Ctx, agu bool) *vdb.Handle {
@@ -250,7 +401,7 @@ func open(c *core.Ctx, agu bool) *vdb.Handle {
 	if err != nil {
 		panic(err)
 	}
-	if err := h.DB.AutoMigrate(&Plain{}, &Soft{}, &Soft2{}, &CNote{}); err != nil {
+	if err := h.DB.AutoMigrate(&Plain{}, &Soft{}, &Soft2{}, &KPlain{}, &KSoft{}, &CNote{}); err != nil {
 		panic(err)
 	}
 	if _, err := h.SQL.Exec(seedSQL); err != nil {
@@ -261,7 +412,7 @@ func open(c *core.Ctx, agu bool) *vdb.Handle {
 
 func initEnv(c *core.Ctx) {
 	E = &env{h: open(c, false), hCfgAGU: open(c, true)}
-	E.seed = vdb.Dump(E.h.SQL, "plains", "softs", "soft2", "c_notes")
+	E.seed = vdb.Dump(E.h.SQL, tables...)
 }
 
 func reseed(h *vdb.Handle) {
@@ -278,8 +429,21 @@ type opResult struct {
 	dump   string
 }
 
-// runOp builds and executes one chain. pos>=0 inserts effective condition cond at that position.
-func runOp(h *vdb.Handle, m model, chain []int, fin finisher, mode int, sessAGU bool, cond, pos int) (opResult, string) {
+// positive: the effective condition of a run (nil = none)
+type positive struct {
+	c   cond
+	k   keyPat
+	pos int // position in the chain for an inChain condition
+}
+
+func (p *positive) name() string {
+	return strings.Replace(p.c.name, "{key}", "{"+p.k.name+"}", 1)
+}
+
+// runOp builds and executes one chain; p != nil adds one effective condition.
+// The tables are dumped only for the negative direction (p == nil, guard on), where "changes no row" is demanded;
+// after the other runs the seed rows are restored whenever a statement reached the driver.
+func runOp(h *vdb.Handle, m model, chain []int, fin finisher, mode int, sessAGU bool, p *positive, dump bool) (opResult, string) {
 	root := h.DB
 	var desc []string
 	var stale error
@@ -287,29 +451,31 @@ func runOp(h *vdb.Handle, m model, chain []int, fin finisher, mode int, sessAGU 
 	if sessAGU {
 		desc = append(desc, "Session{AllowGlobalUpdate:true}")
 	}
+	self := p != nil && p.c.kind == updSelf
 	if fin.needsMdl {
-		if mode == 0 {
-			db = db.Model(m.zeroPtr())
-			desc = append(desc, "Model(&M{})")
-		} else if mode == 2 {
-			db = db.Model(m.zeroSl())
-			desc = append(desc, "Model(&[]M{{},{}})")
-		} else {
+		if mode == 1 {
 			db = db.Table(m.table)
 			desc = append(desc, "Table(t)")
+		} else if self {
+			// no Model(): the value handed to the finisher is the model
+		} else if mode == 0 {
+			db = db.Model(m.zeroPtr())
+			desc = append(desc, "Model(&M{})")
+		} else {
+			db = db.Model(m.zeroSl())
+			desc = append(desc, "Model(&[]M{{},{}})")
 		}
 	}
 	applyCond := func() {
-		cs := conds[cond]
-		desc = append(desc, cs.name)
-		if cs.f == nil {
+		desc = append(desc, p.name())
+		if p.c.f == nil {
 			db = db.Where(root.Where("a = ?", 1).Or("a = ?", 2))
 			return
 		}
-		db = cs.f(db, m)
+		db = p.c.f(db, m, p.k)
 	}
 	for i, s := range chain {
-		if i == pos {
+		if p != nil && p.c.kind == inChain && i == p.pos {
 			applyCond()
 		}
 		db = steps[s].f(db, m)
@@ -318,14 +484,71 @@ func runOp(h *vdb.Handle, m model, chain []int, fin finisher, mode int, sessAGU 
 			stale = db.Error
 		}
 	}
-	if pos >= len(chain) {
+	if p != nil && (p.c.kind == atEnd || (p.c.kind == inChain && p.pos >= len(chain))) {
 		applyCond()
 	}
-	desc = append(desc, fin.name)
 	mark := h.Rec.Mark()
-	res := fin.f(db, m)
-	return opResult{stale: stale, err: res.Error, rows: res.RowsAffected, events: h.Rec.Since(mark), dump: vdb.Dump(h.SQL, "plains", "softs", "soft2", "c_notes")},
-		m.name + ": db." + strings.Join(desc, ".")
+	var res *gorm.DB
+	switch {
+	case fin.needsMdl && self:
+		res = fin.self(db, p.k.upd())
+		desc = append(desc, strings.Replace(fin.name, "(M{S:x})", "(&M{"+p.k.name+",S:x})", 1))
+	case fin.needsMdl:
+		res = fin.f(db, m)
+		desc = append(desc, fin.name)
+	default:
+		var k *keyPat
+		var inline []interface{}
+		var inlineS, call string
+		if p != nil && p.c.kind == delValue {
+			k = &p.k
+		}
+		if p != nil && p.c.kind == delArg {
+			inline, inlineS = p.c.inline(m), strings.TrimPrefix(p.c.name, "inline ")
+		}
+		res, call = doDelete(db, m, fin, k, inline, inlineS)
+		if p == nil {
+			call = fin.name
+		}
+		desc = append(desc, call)
+	}
+	out := opResult{stale: stale, err: res.Error, rows: res.RowsAffected, events: h.Rec.Since(mark)}
+	if dump {
+		out.dump = vdb.Dump(h.SQL, tables...)
+	} else if len(stmtEvents(out.events)) > 0 {
+		reseed(h)
+	}
+	return out, m.name + ": db." + strings.Join(desc, ".")
+}
+
+// pickPositive draws the effective condition of the positive run among the forms that apply to the finisher
+// and the chain, and (for the forms that carry a key) one of the model's key patterns.
+func pickPositive(r *core.Rand, m model, chain []int, fin finisher) *positive {
+	modelInChain := false
+	for _, st := range chain {
+		if strings.Contains(steps[st].name, "Model(") {
+			// (also the read steps: they set Model(&M{}) on the chain value)
+			modelInChain = true
+		}
+	}
+	var ok []cond
+	for _, cd := range conds {
+		switch cd.kind {
+		case delValue, delArg:
+			if fin.needsMdl {
+				continue
+			}
+		case updSelf:
+			// a Model(&M{}) in the chain makes the (keyless) model differ from the value: no condition then
+			if fin.self == nil || modelInChain {
+				continue
+			}
+		}
+		ok = append(ok, cd)
+	}
+	p := &positive{c: core.Pick(r, ok), k: core.Pick(r, m.keys)}
+	p.pos = r.Intn(len(chain) + 1)
+	return p
 }
 
 func stmtEvents(evs []recdrv.Event) []string {
@@ -339,18 +562,23 @@ func stmtEvents(evs []recdrv.Event) []string {
 }
 
 func run(c *core.Ctx) {
-	L := maxLen(c.Tier)
-	nc := nChains(L)
+	// first block: chains up to maxLen x finishers x single-key pairs; second block: chains up to length 2 x
+	// finishers x composite-key pairs (the chain calls do not take part in how a key is read off a value)
+	L, prs := maxLen(c.Tier), pairs[:nSingle]
 	i := c.Case
+	if first := nChains(L) * len(finishers) * nSingle; i >= first {
+		i -= first
+		L, prs = 2, pairs[nSingle:]
+	}
+	nc := nChains(L)
 	chainIdx := i % nc
 	i /= nc
 	fi := i % len(finishers)
 	i /= len(finishers)
-	mi := i % len(models)
-	i /= len(models)
-	mode := i % nModes
+	pr := prs[i%len(prs)]
+	mode := pr[1]
 	chain := decodeChain(chainIdx)
-	fin, m := finishers[fi], models[mi]
+	fin, m := finishers[fi], models[pr[0]]
 	if !fin.needsMdl && mode >= 1 {
 		// Delete takes its model from the value; mode 1 would duplicate mode 0: use it for
 		// a decoy instead (an AllowGlobalUpdate session used first must not leak into the handle)
@@ -358,7 +586,7 @@ func run(c *core.Ctx) {
 	}
 
 	// (1) negative: no effective condition, guard on
-	r, desc := runOp(E.h, m, chain, fin, mode, false, -1, -1)
+	r, desc := runOp(E.h, m, chain, fin, mode, false, nil, true)
 	c.Logf("NEG %s", desc)
 	bad := []string{}
 	if r.stale != nil {
@@ -403,16 +631,11 @@ func run(c *core.Ctx) {
 		c.Sample(map[string]interface{}{"chain": desc, "error": fmt.Sprint(r.err), "driver_events": ev})
 	}
 
-	// (2) positive: same chain with one effective condition inserted
-	cond := c.R.Intn(len(conds))
-	pos := c.R.Intn(len(chain) + 1)
-	// (for Delete the key may come from Model() while the value handed to Delete is empty: still a condition)
-	// a leading Or as first condition call is still a condition; a Model() with key placed
-	// before a later Model(&M{}) step is overridden: keep only placements that stay effective
-	if conds[cond].name == `Model(&M{ID:1})` {
-		pos = len(chain)
-	}
-	pr, pdesc := runOp(E.h, m, chain, fin, mode, false, cond, pos)
+	// (2) positive: same chain with one effective condition: a condition call inserted at a random position,
+	// a model value / deleted value that carries a (possibly partly set) primary key, an inline condition of Delete
+	// (a leading Or as first condition call is still a condition)
+	p := pickPositive(c.R, m, chain, fin)
+	pr2, pdesc := runOp(E.h, m, chain, fin, mode, false, p, false)
 	c.Logf("POS %s", pdesc)
 	// a DryRun session keeps the generated SQL in the statement for inspection (by design): a read executed
 	// on such a chain value leaves its SELECT there, and a finisher called on the same value afterwards
@@ -429,20 +652,23 @@ func run(c *core.Ctx) {
 	}
 	if dryThenRead {
 		c.Inc("pos_dryrun_value_reused_after_read_skipped")
-	} else if pr.stale != nil {
+	} else if pr2.stale != nil {
 		c.Inc("pos_chain_value_with_earlier_error")
-	} else if errors.Is(pr.err, gorm.ErrMissingWhereClause) {
-		c.Violation("pos:"+conds[cond].name, map[string]interface{}{"chain": pdesc, "problems": []string{"rejected with ErrMissingWhereClause although a condition was given"}})
-	} else if pr.err == nil {
+	} else if errors.Is(pr2.err, gorm.ErrMissingWhereClause) {
+		c.Violation("pos:"+p.name(), map[string]interface{}{"chain": pdesc, "problems": []string{"rejected with ErrMissingWhereClause although a condition was given"}})
+	} else if pr2.err == nil {
 		c.Shape("pos", pdesc)
 		c.Inc("pos_executed")
+		if strings.Contains(p.c.name, "{key}") {
+			c.Inc("pos_executed_key_" + p.k.class)
+		}
+		if p.c.kind != inChain && p.c.kind != atEnd {
+			c.Inc("pos_executed_condition_in_the_finisher")
+		}
 	} else {
 		c.Inc("pos_other_error")
-		c.Inc("pos_other_error: " + conds[cond].name + " => " + pr.err.Error())
-		c.Logf("POS other error: %v", pr.err)
-	}
-	if pr.dump != E.seed {
-		reseed(E.h)
+		c.Inc("pos_other_error: " + p.c.name + " => " + pr2.err.Error())
+		c.Logf("POS other error: %v", pr2.err)
 	}
 
 	// (3) AllowGlobalUpdate on (session or config): the guard is what the flag switches off, so the
@@ -451,13 +677,9 @@ func run(c *core.Ctx) {
 		var ar opResult
 		var adesc string
 		if c.R.Bool() {
-			ar, adesc = runOp(E.h, m, chain, fin, mode, true, -1, -1)
-			if ar.dump != E.seed {
-				reseed(E.h)
-			}
+			ar, adesc = runOp(E.h, m, chain, fin, mode, true, nil, false)
 		} else {
-			ar, adesc = runOp(E.hCfgAGU, m, chain, fin, mode, false, -1, -1)
-			reseed(E.hCfgAGU)
+			ar, adesc = runOp(E.hCfgAGU, m, chain, fin, mode, false, nil, false)
 		}
 		c.Logf("AGU %s", adesc)
 		if errors.Is(ar.err, gorm.ErrMissingWhereClause) && ar.stale == nil {
@@ -470,20 +692,27 @@ func run(c *core.Ctx) {
 }
 
 func cases(tier string) int {
-	return nChains(maxLen(tier)) * len(finishers) * len(models) * nModes
+	return nChains(maxLen(tier))*len(finishers)*nSingle + nChains(2)*len(finishers)*(len(pairs)-nSingle)
 }
 
 var Engine = &core.Engine{
 	ID:    "C09",
 	Level: "exploration",
-	Rule: "enumeration of every chain of condition-free calls up to length 2 (quick) / 3 (thorough) over 32 call forms (incl. Session, WithContext, Debug, a DryRun session, and a Count / Find executed on the chain value before it is used further) x 13 update/delete finishers x {plain, soft-delete, two-soft-delete-column} model x {Model(&M{}), Table(), Model(non-empty slice without keys)}; " +
+	Rule: "enumeration of every chain of condition-free calls up to length 2 (quick) / 3 (thorough; 2 for the composite-key models) over 34 call forms (incl. Session, WithContext, Debug, a DryRun session, and a Count / Find executed on the chain value before it is used further) x 17 update/delete finishers (Delete with a keyless struct, empty slice, slice of keyless elements, empty inline conditions of every form, a relation selected along) " +
+		"x 13 (model, mode) pairs: {plain, soft-delete, two-soft-delete-column} x {Model(&M{}), Table(), Model(non-empty slice without keys)} and {composite-key plain (ID int64, Loc string), composite-key soft-delete (OrderID int64, LineNo int)} x {Model(&M{}), Model(slice without keys)}; " +
 		"a case is non-trivial when the guard demonstrably decided it: the negative chain was rejected with ErrMissingWhereClause and zero statement events (shape = literal chain), " +
-		"or the same chain with one effective condition inserted at a random position executed (shape = literal chain incl. condition)",
+		"or the same chain with ONE effective condition executed (shape = literal chain incl. condition). The condition is drawn from 28 forms: a Where/Not/Or/Scopes call of every argument form inserted at a random position (incl. a struct condition naming the key), " +
+		"a model value with a primary key given through Model() as struct, one-element slice or slice with a keyless element first, the value handed to Delete carrying the key (struct or slice, same shape as the finisher's value), " +
+		"Updates/UpdateColumns(&M{key,S}) without Model() (the value is its own model), and an inline condition of Delete (string, map, struct, slice, number, empty string followed by a condition); " +
+		"every key-carrying form draws one of the model's key patterns: for composite keys (set, zero), (zero, set), (set, set)",
 	Assumptions: []string{
 		"SQLite behind the recording driver stands for every database: the guard is dialect-independent code in callbacks/helper.go",
 		"a committed or rolled-back empty implicit transaction is allowed; only prepare/exec/query events count as 'executes a statement'",
 		"a chain value of a DryRun session on which a read was already executed is not used for the positive direction (DryRun keeps the read's SQL in the statement by design; the next finisher on that value does not build its own)",
 		"with AllowGlobalUpdate on (configuration, or a session placed first in the chain) the only demand is that the operation is not rejected with ErrMissingWhereClause, wherever Session / WithContext / Debug calls follow",
+		"a model value whose composite key is partly set counts as a value WITH a primary key (the statement's 'model value without primary key' is the all-zero key); the positive direction only demands that it is not rejected with ErrMissingWhereClause, not which rows the key selects (that is C10's subject)",
+		"Updates(&M{key,S}) as its own model is only used on chains without a Model(&M{}) call or a read step (those make the keyless Model() value the model); a key inside the value handed to Updates while Model() names another, keyless value is an assignment, not a condition, and is not generated",
+		"table contents are compared for the negative direction only; after positive / AllowGlobalUpdate runs the seed rows are restored whenever a statement reached the driver",
 	},
 	Cases: cases,
 	Batch: func(tier string) int {
